@@ -118,6 +118,12 @@ reg("C09",
     "Attribute values are judged as stored in the tree; numbers/units/colours in CSS values are not constrained. One defect (KeyError with restricted protocols) repaired.",
     "DESIGN.md §3 C09")
 
+reg("C10",
+    "round-trip property-based testing for mutation XSS: generated mXSS-shaped markup -> parse -> serialize(sanitize=True) under generated options -> re-parse as document/fragment (20 contexts, scripting on/off) -> allow-list predicate on the re-parsed tree + element-origin check",
+    "Exploration: raw-text/RCDATA elements with markup-looking text, attribute values carrying terminators, foreign content and integration points, table/select/formatting misnesting, noscript, comments, CDATA, combined with the C09 attack vocabulary; serializer options incl. quoting modes, omission, escape flags, whitespace stripping. The re-parsed tree must contain no comment, only allow-listed elements/attributes that correspond to let-through tags, and URI/style values that satisfy the C09 predicate. Held on everything explored.",
+    "Default allow-lists (the serializer's sanitize option offers no others). Two known findings stem from the serializer dropping namespaces (element and attribute namespace shift), each with an exact classifier.",
+    "DESIGN.md §3 C10")
+
 NOT_APPLICABLE = {}
 
 
